@@ -1606,6 +1606,12 @@ class FaultSock(object):
             return k
         return self._real.send(data, *a)
 
+    def sendall(self, data, *a):
+        # a tree that writes with sendall() must meet the injected failure too (and not bypass it through __getattr__)
+        data = bytes(data)
+        while data:
+            data = data[self.send(data, *a):]
+
     def __getattr__(self, name):
         return getattr(self._real, name)
 
